@@ -98,12 +98,18 @@ func (app *App) checkRecovery() {
 		return
 	}
 
+	if sstatus == nil {
+		// stuck on semi-sync ack while still being the recorded master: nothing to compare yet
+		app.logger.Info().Msg("recovery: waiting for manager to turn us to a new master")
+		return
+	}
+
 	app.logger.Info().Msgf("recovery: master %s has GTIDs %s", master, mgtids)
 	app.logger.Info().Msgf("recovery: local node %s has GTIDs %s", localNode.Host(), sstatus.GetExecutedGtidSet())
 
 	if isSlavePermanentlyLost(sstatus, mgtids) {
 		rp, err := localNode.GetReplicaStatus()
-		if err == nil {
+		if err == nil && rp != nil {
 			if rp.GetLastError() != "" {
 				app.logger.Error().Msgf("recovery: local node %s has error: %s", localNode.Host(), rp.GetLastError())
 			}
